@@ -264,8 +264,13 @@ def sc_spec(lib, c, xml):
       (C.c_double * 3).from_address(g2 + gs['fields']['size']['off'])[0:3] = [0.05, 0.05, 0.05]
     rc = c.call('mj_recompile', s2, None, mm, dd, expect='zero')
     if c.stop:
+      if c.events[-1][1] == 'mju_error':
+        # the error escaped mj_recompile through the log channel (raised while re-making the mjData in place, outside
+        # the compiler's own handler): the caller still owns both objects; the half-made mjData can only be deleted
+        bad = False
+        return
       c.events[-1] = ('mj_recompile', c.events[-1][1], (lib.mjs_getError(s2) or '')[:120])
-      bad = True      # documented: on failure the given model/data are unusable -> only delete them
+      m = d = None    # documented: "In the case of failure, the given mjModel and mjData instances will be deleted"
       return
     c.call('mj_step', mm, dd)
     if c.stop:
